@@ -100,7 +100,8 @@ export class Interp {
       case 'html': case 'svg': case 'custom': return tag.name;
       case 'fragShort': case 'Fragment': return vue.Fragment;
       case 'maybeCustom':
-        return matchesPattern(tag.name, this.opts) ? tag.name : this.quiet(() => vue.resolveComponent(tag.name));
+        // a tag a pattern matches is the tag string even when the name is also bound in the module
+        return matchesPattern(tag.name, this.opts) ? tag.name : tag.i !== undefined ? this.leaf(tag.i) : this.quiet(() => vue.resolveComponent(tag.name));
       case 'unbound': return this.quiet(() => vue.resolveComponent(tag.name));
       case 'bound': case 'member': case 'KeepAlive': case 'builtin': return this.leaf(tag.i);
       default: throw new Error('bad tag kind ' + tag.kind);
